@@ -105,4 +105,194 @@ theorem C08_inv_apply (s s' : State) (hinv : InvDict s) (h : applyEntry cfg s = 
     rw [mergeEntries_append s.base s.userDict e s.dict hinv]
     exact hd
 
+/-! ## every history: the invariant, and what a restart then answers
+
+`C08_full_statement` is the property at full strength on the model; `C08_same_answers_partial` proves it
+for every history in which no confirmed candidate is an affixed compound.  What is missing: a compound
+confirmation appends its entry to the user dictionary at once *and* queues it (the updater appends it
+again — the model reproduces the double line of user.dic), so after a restart the dictionary holds the
+compound's word twice where the running one holds it once.  Answers are still equal (candidates are
+de-duplicated by text; decided per case by the executable oracle of the C08 check), but the dictionaries
+are no longer equal and the proof through `InvDict` does not apply. -/
+
+/-- Full strength: in every reachable quiescent state, save + restart changes no answer. -/
+def C08_full_statement : Prop :=
+  ∀ (s0 s s' : State) (ops : List Op), InvDict s0 → s = runOps cfg s0 ops → s.pending = [] → s.hasDir = true →
+    readAll cfg.kanaClass cfg.alts cfg.kata (writeAll cfg.names cfg.vsuf s.userDict) = s.userDict →
+    restart cfg (save cfg s) = some s' →
+    ∀ ctx input, (convert cfg s' ctx input).map (·.2.2) = (convert cfg s ctx input).map (·.2.2)
+
+/-- A step that is not a compound confirmation: it leaves the user dictionary alone, or it is the updater. -/
+def QuietStep (s : State) (op : Op) : Prop := (stepOp cfg s op).userDict = s.userDict ∨ op = .apply
+
+theorem base_step (s : State) (op : Op) : (stepOp cfg s op).base = s.base := by
+  cases op with
+  | convert ctx input =>
+    simp only [stepOp]
+    cases hc : convert cfg s ctx input with
+    | none => rfl
+    | some r =>
+      obtain ⟨s', sid, cs⟩ := r
+      unfold convert at hc
+      simp only [Option.map_eq_some_iff, Prod.mk.injEq] at hc
+      obtain ⟨_, _, rfl, _, _⟩ := hc
+      rfl
+  | confirm sid cid now =>
+    simp only [stepOp]
+    unfold confirm popSession
+    cases hs : s.sessions.find? (·.sid == sid) with
+    | none => rfl
+    | some sess' =>
+      simp only
+      cases hcb : (cid.bind fun i => sess'.cands[i]?) with
+      | none => rfl
+      | some cand =>
+        simp only
+        cases independentWord cand.chain <;> cases withAffix cand.chain <;> rfl
+  | register k r w =>
+    simp only [stepOp]
+    cases hr : register cfg s k r w with
+    | none => rfl
+    | some s' =>
+      unfold register at hr
+      simp only [Option.map_eq_some_iff] at hr
+      obtain ⟨e, _, rfl⟩ := hr
+      rfl
+  | apply =>
+    simp only [stepOp]
+    cases ha : applyEntry cfg s with
+    | none => rfl
+    | some s' =>
+      unfold applyEntry at ha
+      cases hp : s.pending with
+      | nil => simp only [hp, Option.some.injEq] at ha; subst ha; rfl
+      | cons e rest =>
+        simp only [hp, Option.map_eq_some_iff] at ha
+        obtain ⟨d, _, rfl⟩ := ha
+        rfl
+  | save =>
+    simp only [stepOp, save]
+    split <;> rfl
+
+theorem dict_step_non_apply (s : State) (op : Op) (h : op ≠ .apply) : (stepOp cfg s op).dict = s.dict := by
+  cases op with
+  | apply => exact absurd rfl h
+  | convert ctx input =>
+    simp only [stepOp]
+    cases hc : convert cfg s ctx input with
+    | none => rfl
+    | some r =>
+      obtain ⟨s', sid, cs⟩ := r
+      unfold convert at hc
+      simp only [Option.map_eq_some_iff, Prod.mk.injEq] at hc
+      obtain ⟨_, _, rfl, _, _⟩ := hc
+      rfl
+  | confirm sid cid now =>
+    simp only [stepOp]
+    unfold confirm popSession
+    cases hs : s.sessions.find? (·.sid == sid) with
+    | none => rfl
+    | some sess' =>
+      simp only
+      cases hcb : (cid.bind fun i => sess'.cands[i]?) with
+      | none => rfl
+      | some cand =>
+        simp only
+        cases independentWord cand.chain <;> cases withAffix cand.chain <;> rfl
+  | register k r w =>
+    simp only [stepOp]
+    cases hr : register cfg s k r w with
+    | none => rfl
+    | some s' =>
+      unfold register at hr
+      simp only [Option.map_eq_some_iff] at hr
+      obtain ⟨e, _, rfl⟩ := hr
+      rfl
+  | save =>
+    simp only [stepOp, save]
+    split <;> rfl
+
+/-- The invariant survives every quiet step … -/
+theorem C08_inv_step (s : State) (op : Op) (hinv : InvDict s) (hq : QuietStep s op) : InvDict (stepOp cfg s op) := by
+  by_cases ha : op = .apply
+  · subst ha
+    simp only [stepOp]
+    cases hap : applyEntry cfg s with
+    | none => exact hinv
+    | some s' => exact C08_inv_apply s s' hinv hap
+  · rcases hq with hq | hq
+    · unfold InvDict at hinv ⊢
+      rw [base_step, hq, dict_step_non_apply s op ha]
+      exact hinv
+    · exact absurd hq ha
+
+/-- … hence every history of quiet steps (`QuietHistory`: each step is quiet in the state it runs in). -/
+def QuietHistory : State → List Op → Prop
+  | _, [] => True
+  | s, op :: t => QuietStep s op ∧ QuietHistory (stepOp cfg s op) t
+
+theorem C08_inv_history : ∀ (ops : List Op) (s : State), InvDict s → QuietHistory s ops → InvDict (runOps cfg s ops)
+  | [], _, h, _ => h
+  | op :: t, s, h, hq => C08_inv_history t (stepOp cfg s op) (C08_inv_step s op h hq.1) hq.2
+
+/-- **After a save and restart every conversion returns the same candidates in the same order** — for
+every history without compound confirmations (see the section header for what is missing). -/
+theorem C08_same_answers_partial (s0 s s' : State) (ops : List Op) (hinv : InvDict s0) (hs : s = runOps cfg s0 ops)
+    (hquiet : QuietHistory s0 ops) (hdir : s.hasDir = true)
+    (hrt : readAll cfg.kanaClass cfg.alts cfg.kata (writeAll cfg.names cfg.vsuf s.userDict) = s.userDict)
+    (h : restart cfg (save cfg s) = some s') :
+    ∀ ctx input, (convert cfg s' ctx input).map (·.2.2) = (convert cfg s ctx input).map (·.2.2) := by
+  obtain ⟨hf, _, _, _, hd⟩ := C08_restart_restores s s' hdir hrt h
+  have hI : InvDict s := by rw [hs]; exact C08_inv_history ops s0 hinv hquiet
+  unfold InvDict at hI
+  rw [hI] at hd
+  have hdict : s'.dict = s.dict := (Option.some.inj hd).symm
+  intro ctx input
+  unfold convert
+  rw [hdict, hf]
+  cases getCandidates cfg.tables input s.dict ctx (toKkcFreq s.freq) cfg.nCandidates cfg.fuel <;> rfl
+
+/-! Non-vacuity: a concrete quiet history (a registration, its application, a conversion, its
+confirmation, a save) from a state that satisfies the invariant. -/
+
+def exBase : Dict :=
+  { std := [([12363], [{ word := [34442], reading := [12363], speech := .noun .common }])], stdTrie := [[12363]],
+    anc := [], ancTrie := [] }
+
+def exState : State :=
+  { base := exBase, tankan := [], dict := exBase, freq := [], userDict := [], sessions := [], pending := [],
+    nextSid := 0, hasDir := true, saved := none }
+
+def exOps : List Op :=
+  [.register .commonNoun [12363] [39321], .apply, .convert .normal [12363], .confirm 0 (some 0) 7, .save]
+
+example : InvDict exState := by unfold InvDict; rfl
+
+example : QuietHistory exState exOps := by
+  refine ⟨Or.inl (by decide +kernel), Or.inr rfl, Or.inl (by decide +kernel), Or.inl (by decide +kernel),
+    Or.inl (by decide +kernel), trivial⟩
+
+example : (runOps cfg exState exOps).userDict = [⟨[39321], [12363], .noun .common⟩] ∧
+    (runOps cfg exState exOps).freq.map (fun e => (e.word, e.count)) = [([39321], 1)] ∨
+    (runOps cfg exState exOps).freq.map (fun e => (e.word, e.count)) = [([34442], 1)] := by
+  decide +kernel
+
+/-! The hypothesis `QuietHistory` is needed: after a compound confirmation (prefix 御 + 蚊, confirmed and
+applied) the user dictionary holds the compound twice and the restarted dictionary would list its word
+twice where the running one lists it once — `InvDict` is false in that reachable state. -/
+
+def exBase2 : Dict :=
+  { std := [([12363], [{ word := [34442], reading := [12363], speech := .noun .common }])], stdTrie := [[12363]],
+    anc := [([12362], [{ word := [24481], reading := [12362], speech := .affix .prefix }])], ancTrie := [[12362]] }
+
+def exState2 : State := { exState with base := exBase2, dict := exBase2 }
+
+def exOps2 : List Op := [.convert .normal [12362, 12363], .confirm 0 (some 0) 7, .apply]
+
+example : (runOps cfg exState2 exOps2).userDict.length = 2 ∧ (runOps cfg exState2 exOps2).pending = [] ∧
+    (mergeEntries cfg exState2.base (runOps cfg exState2 exOps2).userDict).map (fun d => d.std.map fun p => p.2.length) =
+      some [1, 2] ∧
+    (runOps cfg exState2 exOps2).dict.std.map (fun p => p.2.length) = [1, 1] := by
+  decide +kernel
+
 end Chokan.Props.C08
